@@ -523,7 +523,7 @@ func (x *exec) Check(res *vsched.Result) *eng.Violation {
 					}
 				}
 				if !got {
-					return eng.V("published-block-not-delivered", op, fmt.Sprintf("%s: block %s was published after the subscription was established, the request was not cancelled, yet at quiescence it has not been delivered\n%s", who, keyStr([]int{k}), logStr), feats...)
+					return eng.V("published-block-not-delivered", op, fmt.Sprintf("%s: block %s was published after the request had registered its want (hence subscribed), the request was not cancelled, yet at quiescence it has not been delivered\n%s", who, keyStr([]int{k}), logStr), feats...)
 				}
 			}
 			all := true
@@ -596,6 +596,9 @@ func scripts() []*script {
 		{name: "two_a_ab_pubAB", reqs: []reqSpec{{keys: []int{a}}, {keys: []int{a, b}}}, pubs: P{{{a, b}}}, cancel: noCancel, deltaT: -1},
 		{name: "two_a_a_pubA_cancel0", reqs: []reqSpec{{keys: []int{a}}, {keys: []int{a}}}, pubs: P{{{a}}}, cancel: 0, deltaT: -1},
 		{name: "two_ab_a_pubA_pubB", reqs: []reqSpec{{keys: []int{a, b}}, {keys: []int{a}}}, pubs: P{{{a}}, {{b}}}, cancel: noCancel, delta: -1, deltaT: -1},
+		// the two smallest scenarios once more, one deviation deeper in the thorough tier (bound 4; quick: base schedule only)
+		{name: "a_pubA_deep", reqs: one(a), pubs: P{{{a}}}, cancel: noCancel, delta: -2, deltaT: 1},
+		{name: "pubA_a_deep", reqs: one(a), pubs: P{{{a}}}, cancel: noCancel, pubFirst: true, delta: -2, deltaT: 1},
 	}
 }
 
@@ -624,7 +627,7 @@ func scenarios(r *eng.Run) []*vexp.Scenario {
 func main() {
 	eng.WorkerMain = func() { vexp.Register(scenarios(nil)...); eng.WorkerMain() }
 	eng.Main("C37", "model_checking", func(r *eng.Run) {
-		r.Rule("every schedule (thread interleaving, select-case choice) of each scenario with at most B deviations from the base schedule (continue the running thread, else the lowest-numbered enabled thread; first ready select case; fair defaults in busy-wait loops); B = 2 quick / 3 thorough, two-request scenarios 2 (the largest 1 quick / 2 thorough); a case is non-trivial when it has >= 1 deviation; each execution is a distinct choice sequence run on the rewritten real notifications.PubSub + cskr/pubsub + getter")
+		r.Rule("every schedule (thread interleaving, select-case choice) of each scenario with at most B deviations from the base schedule (continue the running thread, else the lowest-numbered enabled thread; first ready select case; fair defaults in busy-wait loops); B = 2 quick / 3 thorough, two-request scenarios 2 (the largest 1 quick / 2 thorough), the two smallest scenarios additionally with B = 4 in thorough; a case is non-trivial when it has >= 1 deviation; each execution is a distinct choice sequence run on the rewritten real notifications.PubSub + cskr/pubsub + getter")
 		r.Assume("vsched models channels, select and sync faithfully; context cancellation is native (Done channels are polled)")
 		r.Assume("the want manager behind the want / cancel-wants callbacks is a recorder: receipt of a block on the publish path is taken to clean the want-list for that key, as client.receiveBlocksFrom -> SessionManager.ReceiveFrom does")
 		vexp.Explore(r, scenarios(r), vexp.Options{Bound: eng.Pick(r, 2, 3)})
